@@ -10,6 +10,7 @@ mod floatgrid;
 mod fuzz;
 mod fuzz_calc;
 mod lex;
+mod stmts;
 mod longchain;
 mod sym;
 mod term;
@@ -46,6 +47,7 @@ fn main() {
         "fuzz-val" => valgrid::main_fuzz(rest),
         "tables" => fuzz::main_tables(rest),
         "longchain" => longchain::main(rest),
+        "stmts" => stmts::main(rest),
         _ => {
             eprintln!("usage: recorder <expr> [options]");
             2
